@@ -184,6 +184,101 @@ def check_panel(case, ctx):
     ctx.close('Panel.lb==analysis.lb', -1. / np.real(p2.eigvals[:k]), -1. / np.real(ev[:k]), 1e-6, bucket='Panel.lb!=analysis.lb')
 
 
+def check_conecyl(case, ctx):
+    """ConeCyl.lb: eigenpairs of (k0, kG0) on the amplitudes that are not prescribed."""
+    from .C18 import make_cc
+    cc = make_cc(case)
+    cc.num_eigvalues = case['k']
+    name = 'ConeCyl.lb[%s]' % case['model']
+    ctx.label('model:' + case['model'], 'cone' if case['alphadeg'] else 'cylinder', 'combined:%s' % case['combined'])
+    # precondition: stiffness positive definite on its active amplitudes (C16 lists the models/geometries where it is not)
+    probe = make_cc(case)
+    with package(name + '.matrices'):
+        probe._calc_linear_matrices(combined_load_case=case['combined'])
+    K0 = dense(probe.k0)
+    if case['combined'] is None:
+        Kl, Gl = K0, dense(probe.kG0)
+    elif case['combined'] == 1:
+        Kl, Gl = K0 + dense(probe.kG0_T), dense(probe.kG0_Fc)
+    elif case['combined'] == 2:
+        Kl, Gl = K0 + dense(probe.kG0_P), dense(probe.kG0_Fc)
+    else:
+        Kl, Gl = K0 + dense(probe.kG0_Fc), dense(probe.kG0_T)
+    pos = 3
+    Kb, Gb = Kl[pos:, pos:], Gl[pos:, pos:]
+    act = np.where(np.abs(Kb).sum(axis=1) > 0)[0]
+    if act.size < case['k'] + 3:
+        ctx.exclude('fewer active amplitudes than requested modes + 2')
+        return
+    Ka = Kb[np.ix_(act, act)]
+    dg = np.sqrt(np.abs(np.diag(Ka)))
+    if np.any(dg == 0) or np.linalg.eigvalsh(Ka / np.outer(dg, dg))[0] < 1e-12:
+        ctx.exclude('stiffness not positive definite on its active amplitudes (see C16)')
+        return
+    def lam_min(G):
+        th_ = _theta(dense(probe.k0)[pos:, pos:][np.ix_(act, act)], G[pos:, pos:][np.ix_(act, act)])
+        ng = th_[th_ < -1e-12 * (np.max(np.abs(th_)) or 1.)]
+        return (-1. / ng.min(), ng.size) if ng.size else (None, 0)
+    c2 = dict(case)
+    if case['combined'] is None:
+        l1, npos = lam_min(dense(probe.kG0))
+        if npos < case['k']:
+            ctx.exclude('fewer positive multipliers than requested')
+            return
+        f = l1 / case['lam1']
+        c2['Fc'], c2['P'], c2['T'] = case['Fc'] * f, case['P'] * f, case['T'] * f
+    else:
+        # the constant load is set to 30% of its own critical value so that it really shifts the spectrum,
+        # the varying load so that its smallest positive multiplier (alone) is lam1 > 1
+        lF, nF = lam_min(dense(probe.kG0_Fc))
+        lT, nT = lam_min(dense(probe.kG0_T))
+        if lF is None or lT is None or (nF if case['combined'] in (1, 2) else nT) < case['k']:
+            ctx.exclude('fewer positive multipliers than requested')
+            return
+        if case['combined'] == 1:
+            c2['T'], c2['Fc'] = case['T'] * 0.3 * lT, case['Fc'] * lF / case['lam1']
+        elif case['combined'] == 3:
+            c2['Fc'], c2['T'] = case['Fc'] * 0.3 * lF, case['T'] * lT / case['lam1']
+    cc = make_cc(c2)
+    cc.num_eigvalues = case['k']
+    with package(name):
+        cc.lb(combined_load_case=case['combined'])
+    ev = np.asarray(cc.eigvals)
+    V = np.asarray(cc.eigvecs)
+    n = cc.get_size()
+    ctx.ok(V.shape == (n, case['k']), name + '.shape', 'eigvecs shape %r for size %d, k=%d' % (V.shape, n, case['k']))
+    ctx.ok(not np.any(V[:pos]), name + '.prescribed-rows', 'modes non-zero on prescribed amplitudes')
+    K0 = dense(cc.k0)
+    if case['combined'] is None:
+        Kl, Gl = K0, dense(cc.kG0)
+    elif case['combined'] == 1:
+        Kl, Gl = K0 + dense(cc.kG0_T), dense(cc.kG0_Fc)
+    elif case['combined'] == 2:
+        Kl, Gl = K0 + dense(cc.kG0_P), dense(cc.kG0_Fc)
+    else:
+        Kl, Gl = K0 + dense(cc.kG0_Fc), dense(cc.kG0_T)
+    Kb, Gb = Kl[pos:, pos:], Gl[pos:, pos:]
+    ctx.nontrivial = case['alphadeg'] != 0. or case['combined'] is not None
+    judge(ctx, name, Kb, Gb, act, ev, V[pos:], case['k'], claim_order=(case['combined'] is None), tol=1e-5)
+
+
+@st.composite
+def _conecyl_strategy(draw, tier='quick'):
+    from .C18 import shell_case, STATIC_MODELS
+    case = draw(shell_case(models=[m for m in STATIC_MODELS if m not in ('clpt_donnell_bc2',)]))
+    case['m1'], case['m2'], case['n2'] = max(case['m1'], 2), max(case['m2'], 2), max(case['n2'], 2)
+    case['Fc'] = round(draw(gen.fl(100., 1e4)), 1)
+    case['P'] = 0.
+    case['T'] = round(draw(gen.fl(-1e4, 1e4)), 1) if draw(st.booleans()) else 0.
+    case['pdT'] = True
+    case['combined'] = draw(st.sampled_from([None, None, 1, 3]))
+    if case['combined'] in (1, 3) and case['T'] == 0.:
+        case['T'] = 5000.
+    case['k'] = draw(st.integers(1, 4))
+    case['lam1'] = draw(gen.fl(1.5, 10.))
+    return case
+
+
 @st.composite
 def _random_strategy(draw, tier='quick'):
     big = draw(st.integers(0, 9))
@@ -222,4 +317,7 @@ SUBS = [
     Sub('panel_pairs', _panel_strategy, check_panel, quick=200, thorough=3000,
         rule='(k0, kG0) of generated plate/cpanel/plate_w models under compressive+shear loads through analysis.lb and Panel.lb; '
              'non-trivial = restrained amplitudes present (null rows/columns)', shards_quick=16),
+    Sub('conecyl_lb', _conecyl_strategy, check_conecyl, quick=96, thorough=1500,
+        rule='ConeCyl.lb on 15 shell models x cylinders/cones x load cases (Fc, Fc+T, combined load cases 1 and 3): shape, zeros on prescribed '
+             'amplitudes, residual, smallest positive multipliers first; non-trivial = cone or combined load case', shards_quick=16),
 ]
